@@ -94,6 +94,8 @@ def plan(tier, seed):
         shards.append({'kind': 'sig', 'ctx': i, 'reps': 2 if q else 30, 'part': i})
     for i in range(8 if q else 48):
         shards.append({'kind': 'seq', 'n': 260 if q else 4000, 'part': i})
+    for i in range(4 if q else 24):
+        shards.append({'kind': 'nest', 'n': 160 if q else 2500, 'part': i})
     for i in range(8 if q else 32):
         shards.append({'kind': 'corpus', 'part': i, 'parts': 8 if q else 32, 'mutants': 0 if q else 20,
                        'limit': 38 if q else None})
@@ -255,6 +257,75 @@ def _seq(spec, rng, res):
         res.case((name, tuple(lines)))
         if i < 2:
             res.sample({'ctx': name, 'sequence': lines})
+
+
+# ---- statements inside control structures ---------------------------------------------------------------------
+
+# statements that reset or unwind interpreter state, drawn with extra weight inside the skeletons
+_STATEFUL = [
+    b'CLEAR', b'CLEAR ,#', b'CLEAR ,,#', b'NEW', b'RUN', b'RUN &', b'END', b'STOP', b'CONT', b'RETURN', b'RETURN &', b'NEXT', b'NEXT I',
+    b'NEXT J,I', b'WEND', b'RESUME', b'RESUME NEXT', b'RESUME &', b'RESUME 0', b'ERASE Q', b'DIM Q(#)', b'OPTION BASE 1', b'RESTORE',
+    b'RESTORE &', b'ON ERROR GOTO 0', b'ON ERROR GOTO &', b'ERROR #', b'DELETE &', b'DELETE &-&', b'RENUM', b'RENUM #,#,#',
+    b'CHAIN "PROG.BAS"', b'CHAIN MERGE "PROG.BAS",&,ALL', b'MERGE "PROG.BAS"', b'LOAD "PROGB",R', b'LOAD "PROG.BAS"', b'COMMON A,B$',
+    b'DEF FNA(X)=X+I', b'DEFINT I-J', b'I=#', b'J=0', b'X=X+1', b'GOTO &', b'GOSUB &', b'ON # GOTO &,&', b'ON # GOSUB &,&',
+    b'SCREEN #', b'WIDTH #', b'KEY(1) ON', b'ON KEY(1) GOSUB &', b'TIMER ON', b'ON TIMER(1) GOSUB &', b'FOR I=1 TO 2', b'WHILE 0',
+    b'WHILE X<9', b'IF I THEN NEXT', b'IF 1 THEN WEND ELSE NEXT', b'EDIT &', b'AUTO', b'LIST', b'TRON', b'SYSTEM', b'SWAP I,J',
+    b'POKE VARPTR(I),#', b'LSET A$=$', b'MID$(A$,#,#)=$', b'PRINT FNA(I)', b'READ I', b'READ A$,I', b'INPUT #1,I', b'FIELD #3,4 AS A$',
+]
+
+# skeletons: lists of lines, {} = a slot for one or two statements; numbered lines form a program that is then RUN
+_SKELETONS = [
+    [b'FOR I=1 TO 3: {}: NEXT'],
+    [b'FOR I=1 TO 2: FOR J=1 TO 2: {}: NEXT J,I'],
+    [b'FOR I%=1 TO 2: {}: NEXT: {}'],
+    [b'X=0: WHILE X<2: X=X+1: {}: WEND'],
+    [b'IF 1 THEN {}: {} ELSE {}'],
+    [b'IF 0 THEN {} ELSE {}: {}'],
+    [b'FOR I=1 TO 2: IF I=2 THEN {} ELSE {}', b'NEXT'],
+    [b'10 FOR I=1 TO 3', b'20 {}', b'30 NEXT', b'40 {}', b'RUN'],
+    [b'10 X=0: WHILE X<3: X=X+1', b'20 {}', b'30 WEND', b'RUN'],
+    [b'10 GOSUB 100: {}: END', b'100 {}: RETURN', b'RUN'],
+    [b'10 GOSUB 100', b'20 END', b'100 FOR I=1 TO 2: {}: NEXT: RETURN', b'RUN'],
+    [b'10 ON ERROR GOTO 100: ERROR 5: {}: END', b'100 {}: RESUME NEXT', b'RUN'],
+    [b'10 ON ERROR GOTO 100', b'20 {}', b'30 {}', b'40 END', b'100 {}: RESUME NEXT', b'RUN'],
+    [b'10 ON ERROR GOTO 100: FOR I=1 TO 2: ERROR 6: NEXT: END', b'100 {}', b'110 RESUME NEXT', b'RUN', b'{}'],
+    [b'10 DEF FNA(X)=X+1: {}: PRINT FNA(1)', b'RUN'],
+    [b'10 DIM Q(5): FOR I=1 TO 2: Q(I)=I: {}: PRINT Q(1): NEXT', b'RUN'],
+    [b'10 DATA 1,2,x,"y",5', b'20 FOR I=1 TO 3: READ A: {}: NEXT', b'RUN'],
+    [b'10 ON KEY(1) GOSUB 100: KEY(1) ON: FOR I=1 TO 3: {}: NEXT: END', b'100 {}: RETURN', b'RUN'],
+    [b'10 FOR I=1 TO 2: GOSUB 100: NEXT: END', b'100 WHILE X<2: X=X+1: {}: WEND: RETURN', b'RUN', b'{}', b'CONT'],
+    [b'10 {}', b'20 STOP', b'30 {}', b'RUN', b'{}', b'CONT'],
+]
+
+
+def _nest(spec, rng, res):
+    """Random statements (state-resetting ones with extra weight) inside loops, subroutines, handlers and IF branches."""
+    templates = stmts.STATEMENTS + [b'PRINT ' + f for f in stmts.FUNCTIONS]
+
+    def slot():
+        parts = []
+        for _ in range(rng.choice((1, 1, 2))):
+            t = rng.choice(_STATEFUL) if rng.random() < 0.6 else rng.choice(templates)
+            parts.append(stmts.fill(t, rng))
+        return b': '.join(parts)
+
+    for i in range(spec['n']):
+        name, kwargs, setup = rng.choice(CONTEXTS)
+        skel = rng.choice(_SKELETONS)
+        lines = []
+        for l in skel:
+            while b'{}' in l:
+                l = l.replace(b'{}', slot(), 1)
+            lines.append(l)
+        with _new_box(kwargs) as box:
+            for l in setup + lines:
+                out = _exec(box, res, l, {'ctx': name, 'seq': lines, 'at': l})
+                if out is None or out.startswith(b'<exit>'):
+                    break
+        res.case((name, tuple(lines)))
+        res.count('statements_inside_control_structures')
+        if i < 2:
+            res.sample({'ctx': name, 'nested': lines})
 
 
 # ---- corpus -----------------------------------------------------------------------------------------------
